@@ -29,7 +29,7 @@ func init() {
 			"resolution 0 (alias of 960), resolutions above 32767 (clamped) and more than 65535 tracks are outside the stated domain",
 			"messages are non-empty smf.Message values: channel messages, FF type VLQ payload metas in canonical form, F0/F7 sysex and escape messages",
 		},
-		Require: []string{"bank_reads", "dumps_among_notes", "histories", "smpte_files", "rs_elisions_by_writer", "delta_ge_2^28", "early_close", "add_after_close", "variadic_add", "unclosed_tracks", "files_with_more_than_65536_events", "tracks_added_again_after_more_adds", "end_of_track_inside_multi_message_add", "end_of_track_messages_with_data_added", "tracks_extended_or_closed_after_smf_add", "tracks_added_after_a_write", "events_compared", "norunningstatus_files", "file_roundtrips", "read_modify_write_values", "concurrent_roundtrips", "vlq_width_combinations"},
+		Require: []string{"bank_reads", "dumps_among_notes", "histories", "smpte_files", "rs_elisions_by_writer", "delta_ge_2^28", "early_close", "add_after_close", "variadic_add", "unclosed_tracks", "files_with_more_than_65536_events", "tracks_added_again_after_more_adds", "end_of_track_inside_multi_message_add", "end_of_track_messages_with_data_added", "tracks_extended_or_closed_after_smf_add", "tracks_added_after_a_write", "roundtrips_right_after_a_refused_write", "events_compared", "norunningstatus_files", "file_roundtrips", "read_modify_write_values", "concurrent_roundtrips", "vlq_width_combinations"},
 		Run:     runC01,
 	})
 }
@@ -506,6 +506,22 @@ func runC01(c *mon.Ctx) {
 
 	c.Each("histories", c.N(30_000, 3_000_000), func(i int64, r *mon.Rand) {
 		a := buildHistory(r, 1<<32-1, i%32 == 0)
+		if i%8 == 5 {
+			// the program has just had a write refused (disk full, connection gone) - of this value or of another one; that
+			// is over and must not show in what is written next
+			o := a
+			if r.Bool() {
+				o = buildHistory(r, 0x0FFFFFFF, false)
+			}
+			var probe bytes.Buffer
+			if n, err := o.s.WriteTo(&probe); err == nil && n > 15 {
+				w := &faultWriter{err: errInjected, limit: r.Range(14, int(n)-1), short: r.Bool()}
+				if _, err := o.s.WriteTo(w); err != nil {
+					c.Count("roundtrips_right_after_a_refused_write", 1)
+					a.log("(a WriteTo of %s had been refused by its destination after %d bytes just before)", map[bool]string{true: "this value", false: "another value"}[o == a], w.accepted)
+				}
+			}
+		}
 		c01Check(c, a, fmt.Sprintf("history %d", i))
 		if i < 2 {
 			c.Sample("history", a.desc)
